@@ -206,7 +206,7 @@ def gen_c04(env, tier):
         if not case.dims and case.func == "count" and (case.weights is None or case.weights["kind"] == "scalar"):
             case.N = 3
         commons = None
-        for fmt in (("nan",), ("tuple", rnd.choice([0, -1, 7.5])), ("plain", 0)):
+        for fmt in (("nan",), ("tuple", rnd.choice([0, -1, 7.5, 1, 2])), ("plain", 0)):
             if fmt[0] == "plain" and case.func == "valid_count" and not case.ignore:
                 continue
             c2 = cb.Case(case.dims, case.ishape, case.fact, case.weights, case.ignore, fmt, case.func, case.p, case.N)
@@ -385,6 +385,37 @@ def gen_c18(env, tier):
             env.run_xcube("C18", case)
 
 
+def gen_c18_shared(env, tier):
+    """two statistics on the same argument objects, the second one after the first: a weighted stddev (weights with
+    missing values, facts with values hidden under a False validity) followed by min / max / quantile / stddev of the
+    very same fact array"""
+    rnd = env.rnd
+    for _ in range(150 if tier == "quick" else 3000):
+        first = stat_case(env, "stddev")
+        if first.fact["dtype"] != "float":
+            continue
+        first.fact.pop("offset", None)
+        first.weights = env.gen.weights(first.n, small=True)
+        if first.weights is not None and first.weights["kind"] == "scalar":
+            first.weights = None
+        if first.weights is not None:
+            first.weights["valid"] = [rnd.random() > 0.4 for _ in range(first.n)]
+        env.run_xcube("C18", first, dtype=np.int64)
+        func = rnd.choice(["max", "min", "quantile", "stddev"])
+        fact = dict(first.fact)
+        if func in ("max", "min"):
+            if fact["K"] != 1:
+                continue
+            fact["oned"] = first.fact["oned"]
+        second = cb.Case(first.dims, first.ishape, fact, None, rnd.random() < 0.5, first.fmt, func,
+                         rnd.choice(cb.PROBS) if func == "quantile" else None)
+        if func in ("max", "min") and not fact["oned"]:
+            continue
+        second.share_args_with(first)
+        second._wa, second._wa_built = None, True
+        env.run_xcube("C18", second, dtype=np.int64, note="second statistic on the same fact object")
+
+
 def run_wquantile(env, case):
     """weighted quantile: the evaluation is repeated with all weights multiplied by 3, by 2^-30 and by 2^30 (exact
     in binary floating point); every cell must come out the same (rescaling invariance)"""
@@ -428,6 +459,17 @@ def gen_c14(env, tier):
                     if (v,) not in i:
                         dict.__setitem__(i, (v,), np.array([], dtype=np.uint32))
         cube = env.ccube(idims)
+        if n and rnd.random() < 0.12:
+            # the cube holds its dimension objects, not a picture of them: one is re-expressed and a cell of it reassigned
+            # in place after the cube was built; the walk is over the dimensions as they are when it happens
+            k = rnd.randrange(nd)
+            row, val = rnd.randrange(n), rnd.randrange(extents[k] + 1)
+            idims[k].shift_common(rnd.choice([val, idims[k].common, rnd.randrange(extents[k] + 2)]))
+            idims[k].update({(val,): np.array([row], dtype=np.uint32)})
+            dims = list(dims)
+            dims[k] = dims[k].copy()
+            dims[k][row] = val
+            commons = [int(i.common) for i in idims]
         delivered, inner = [], []
         exc = None
         item = lambda c, r: {"c": [int(x) for x in c], "rows": [int(x) + 1 for x in np.asarray(r).tolist()]}   # noqa: E731
@@ -595,9 +637,16 @@ def gen_c14_all(env, tier):
 def gen_c04_all(env, tier):
     gen_c04(env, tier)
     gen_wide(env, tier, "C04")
+    from . import c13
+    c13.pooled_blocks(env, tier, own="C04")          # the missing rule through the worker pool (scheduled threads)
 
 
-GENS = {"C02": gen_c02_all, "C03": gen_c03_all, "C04": gen_c04_all, "C05": gen_c05_all, "C13": gen_c13_all, "C14": gen_c14_all, "C18": gen_c18}
+def gen_c18_all(env, tier):
+    gen_c18(env, tier)
+    gen_c18_shared(env, tier)
+
+
+GENS = {"C02": gen_c02_all, "C03": gen_c03_all, "C04": gen_c04_all, "C05": gen_c05_all, "C13": gen_c13_all, "C14": gen_c14_all, "C18": gen_c18_all}
 
 
 def judge(chk, rec, own):
